@@ -436,16 +436,16 @@ theorem deep_del_ref (p : ObjId) (n g : Nat) : deepObj (delAct p) (.ref n g) = .
 
 theorem asRef_deep_del (p : ObjId) (v : Obj) : (deepObj (delAct p) v).asRef = v.asRef := by
   cases v with
-  | arr items => rw [deepObj_arr (a := delAct p) (items := eraseFirstRef p items) rfl]; rfl
+  | arr items => rw [deepObj_arr (a := delAct p) (items := items.filter (fun o => !isRefTo p o)) rfl]; rfl
   | dict es => rw [deepObj_dict (a := delAct p) (es := removeKeys es ((es.filter (fun kv => isRefTo p kv.2)).map (·.1))) rfl]; rfl
-  | stream es c => rw [deepObj_stream (a := delAct p) (es := es) (c := c) rfl]; rfl
+  | stream es c => rw [deepObj_stream (a := delAct p) (es := stripDict p es) (c := c) rfl]; rfl
   | _ => rw [deepObj_other] <;> simp [delAct, delFn]
 
 theorem asInt_deep_del (p : ObjId) (v : Obj) : (deepObj (delAct p) v).asInt = v.asInt := by
   cases v with
-  | arr items => rw [deepObj_arr (a := delAct p) (items := eraseFirstRef p items) rfl]; rfl
+  | arr items => rw [deepObj_arr (a := delAct p) (items := items.filter (fun o => !isRefTo p o)) rfl]; rfl
   | dict es => rw [deepObj_dict (a := delAct p) (es := removeKeys es ((es.filter (fun kv => isRefTo p kv.2)).map (·.1))) rfl]; rfl
-  | stream es c => rw [deepObj_stream (a := delAct p) (es := es) (c := c) rfl]; rfl
+  | stream es c => rw [deepObj_stream (a := delAct p) (es := stripDict p es) (c := c) rfl]; rfl
   | _ => rw [deepObj_other] <;> simp [delAct, delFn]
 
 /-- an entry whose value does not point at the deleted object survives `delete_object`'s rewriting of its
@@ -519,7 +519,7 @@ theorem treeOK_delete (d : Doc) (p : ObjId) : ∀ (t : PT) (top : Option ObjId),
     refine ⟨?_, treeOKL_delete d p ks (some id) h4 (by simp; exact hne) hp.2
       (fun x hx => hnd x (by simp [nodeIds, hx]))⟩
     rw [(delete_effect d p).2.2 id hne, h1]
-    by_cases hv : id ∈ (traverse (delAct p) d.trailer d.objects).2.2
+    by_cases hv : id ∈ (traverse (delAct p) (stripDict p d.trailer) d.objects).2.2
     · simp only [hv, if_true, Option.map_some, e1]
       exact ⟨nd', rfl, b2 _ h2, b1⟩
     · simp only [hv, if_false]
@@ -551,10 +551,10 @@ theorem deletePage1_count (d : Doc) (pages : List ObjId) (n : Nat) (p q : ObjId)
   -- the object handed back by delete_object still names q as its Parent
   have hret : ∃ pd', (deleteObject d p).2 = some (.dict pd') ∧ (Dict.get pd' PARENT).bind Obj.asRef = some q := by
     obtain ⟨pd1, e1, b1, _⟩ := book_preserved p pd hpdn (some q) (by simp; exact hqp) hpp
-    have hv := (traverse_visits_once (delAct p) d.trailer d.objects).2.2 p
+    have hv := (traverse_visits_once (delAct p) (stripDict p d.trailer) d.objects).2.2 p
     simp only [deleteObject]
     rw [hv, hpo]
-    by_cases hvis : p ∈ (traverse (delAct p) d.trailer d.objects).2.2
+    by_cases hvis : p ∈ (traverse (delAct p) (stripDict p d.trailer) d.objects).2.2
     · simp only [hvis, if_true, Option.map_some, e1]; exact ⟨pd1, rfl, b1⟩
     · simp only [hvis, if_false]; exact ⟨pd, rfl, hpp⟩
   obtain ⟨pd', hr1, hr2⟩ := hret
